@@ -44,10 +44,50 @@ checks = {
    technique="runtime monitor: differential oracle direct access vs HTTP service (service.Core behind httptest) over generated histories, all load content types and response formats, raw HTTP for outputs and error channels",
    text="Each history is applied to a local lake and through the service; per step outcomes, model agreement on both sides, and per response format the served bytes equal the locally formatted bytes (zng and json compared as decoded values); compile errors and late errors must reach the client through HTTP status, in-band error or the status endpoint.",
    note="ids are not compared; values are int/string records; loads go through the format's own reader on both sides"),
+ "C02": dict(level="exploration", design="DESIGN.md §3 C02",
+   technique="runtime monitor: round-trip oracle parse(format(v)) == v over generated values × formatter settings (exhaustive over pairs of type constructors for the decorator rules) and differential oracle ZSON reader vs JSON reader over grammar-generated RFC 8259 documents",
+   text="Held on every generated value/sequence and formatter setting: the parsed value has the identical harness type string and bytes (any NaN = any NaN); every generated JSON document is accepted by the ZSON reader with the value the JSON reader produces. Known defects are excused only by the normalise-and-recompare technique, each with a directed reproducer.",
+   note="strings are generated in NFC (text readers normalise by design); numeric type names excluded (spec); a union holding (tag,null) is generated as the union's null"),
+ "C03": dict(level="exploration", design="DESIGN.md §3 C03",
+   technique="runtime monitor: round-trip oracle VNG writer → row reader and → vector cache + materializer, projection oracle against the full read, column-statistics-directed generator, sub-process crash probes, race detector on concurrent Fetch probes",
+   text="Held on every generated file: row reader and vector path return the input sequence; every projection agrees with the full read on the requested paths; encodings' thresholds (const/dict at 256/plain, null runs, dynamic tags, unions) are forced by the generator and counted from the file's own metadata.",
+   note="vector path skipped (and counted) for files whose metadata matches an open vector-cache crash finding; extra data in a projection is allowed"),
+ "C04": dict(level="exploration", design="DESIGN.md §3 C04",
+   technique="runtime monitor: differential oracle in-memory reference vs {zson, zjson, vng, zng × writer/reader configurations} per generated (program, input), buffer-filter skip/pass hook counters, poison-on-release, race detector",
+   text="For every generated (program, input) the output over each physical encoding equals the output over the in-memory values in the program's comparison mode; the search token is planted in field names and values at every depth and across many small frames, and the monitor counts frames skipped and kept by the pushed-down filter.",
+   note="an encoding is compared only if reading it back without a query reproduces the input (C01–C03's business); trusts internal/prog's order-state"),
+ "C05": dict(level="exploration", design="DESIGN.md §3 C05",
+   technique="runtime monitor: structural-identity oracle over permuted and random type-creation histories through every entry API, type-value stability checks, concurrent histories under the race detector, directed yield at the name-definition hook",
+   text="Within a context two returned types are the same object iff their harness structural strings are equal, over all permutations of short histories and long random ones; type values equal an independent encoder's output and never change; translate/decode round trips; the same under 8 concurrent goroutines with the race detector alarming.",
+   note="truncated / trailing-garbage encodings are C11's business; concurrent cases use canonical encodings only"),
+ "C06": dict(level="exploration", design="DESIGN.md §3 C06",
+   technique="runtime monitor: exhaustive antisymmetry/transitivity check on the comparison matrix of a curated universe (all triples), agreement of the four comparison paths, sort operator permutation/order/stability/spill-independence oracle with spill-run hook counts, k-way merge oracle with fast/slow path hook counts",
+   text="Exhaustive over all triples of the universe for 8 comparator configurations; sort output is a stable non-decreasing permutation identical for every memory limit (0..k spill runs forced and counted); merge output is sorted and multiset-equal to its inputs under adversarial batch boundaries.",
+   note="universe is curated, not all values; keyless sort on records not demanded"),
+ "C07": dict(level="exploration", design="DESIGN.md §3 C07",
+   technique="runtime monitor: differential oracle as-analyzed plan vs optimized plan over grammar-generated programs with an order-state and over the repo's ztest/valid.zed corpus; DAG diff classifies which rewrites fired",
+   text="For every generated and corpus program the optimized plan's output equals the as-analyzed plan's output in the program's comparison mode, with equal error-ness and termination; non-trivial cases are those whose optimized DAG differs.",
+   note="file/stream inputs only (no lake inputs); trusts internal/prog's order-state for the comparison mode"),
+ "C10": dict(level="exploration", design="DESIGN.md §3 C10",
+   technique="runtime monitor: reference-model oracle (harness groups rows by key (type,bytes); per-group aggregates from the ungrouped, unspilled, direct aggregate; nested-loop join) across permutations, spill limits (spill-run hook counts), declared sort directions and partials DAGs",
+   text="Group-by emits exactly one row per distinct key with the aggregate over exactly that group's rows, and join emits the nested-loop pair set, independently of input order, spilling, declared sortedness and partial composition.",
+   note="aggregate arithmetic itself is cross-checked only for count/sum/min/max on integers; rows with a missing join key are outside the claim"),
+ "C11": dict(level="exploration", design="DESIGN.md §3 C11",
+   technique="runtime monitor: structured mutation of valid encodings and query texts fed to every reader and to the compiler in a helper process; oracles: no panic/fatal, watchdog-confirmed termination, allocation bound, goroutine leak check, independent structural walk of validated values",
+   text="Every mutant either decodes or errors: no panic escapes the reader's own calls, no fatal error, the call returns (a hang is confirmed by a solo re-run), allocations stay within the stated bound, no reader goroutine is left, and with Validate on every value passes an independent structural walk.",
+   note="recover scope is the reader call only (consumer-side panics are outside the claim); leaf widths are not demanded of Validate"),
+ "C18": dict(level="fault_enumeration", design="DESIGN.md §3 C18",
+   technique="runtime fault injection: failing sink enumerated over every k-th Write call × {one-shot, sticky, short} × {Close ok/fails} for every writer reachable through the output layer and the lake data-object writers; no-fault direction checked by read-back",
+   text="For every (format, options, route, input) the fault position is enumerated over all sink Write calls of the unfaulted run; a faulted run must return an error from some Write or Close; an unfaulted run must deliver bytes that read back to the input.",
+   note="a sink returning a short count with nil error breaks io.Writer and is not injected; parquet/arrows are not in the property's list"),
+ "C20": dict(level="exploration", design="DESIGN.md §3 C20",
+   technique="runtime monitor: leaf-multiset oracle over fuse's output (path, primitive type, bytes), uniform-type and fuse()-aggregate agreement, spill vs memory equality with spill hook counts; exhaustive over pairs and (thorough) triples of a 24-type alphabet",
+   text="|out| = |in|, one output type equal to what fuse(this) reports, every non-null leaf of in[i] present in out[i] at the same path with the same type and bytes, identical output with and without spilling.",
+   note="top-level error values not generated (pass through every operator by design); named types and union tags transparent"),
 }
 not_built = {
 }
-for pending in ["C09"]:  # monitors that exist but are not yet through the silence gate
+for pending in ["C02","C03","C04","C05","C06","C07","C09","C10","C11","C18","C20"]:  # monitors that exist but are not yet through the silence gate
     checks.pop(pending, None)
 hooks_commits = subprocess.run(["git","-C","/repo","log","--format=%H %s"],capture_output=True,text=True).stdout.splitlines()
 hook_commits = [l.split()[0] for l in hooks_commits if " verif hooks" in l]
